@@ -166,3 +166,20 @@ M("tp21_rts_interval_first_only", ["C09"], "RTS/CTS minimum interval not applied
 M("tp22_bam_slow", ["C09"], "FD BAM packets 250 ms apart",
   ("j1939/j1939_22.py", "                            buf['deadline'] = time.time() + self._minimum_tp_bam_dt_interval\n                            # recalc next wakeup\n                            if next_wakeup > buf['deadline']:\n                                next_wakeup = buf['deadline']\n                        else:\n                            buf['state'] = self.SendBufferState.SENDING_EOM_STATUS",
    "                            buf['deadline'] = time.time() + self._minimum_tp_bam_dt_interval + 0.24\n                            # recalc next wakeup\n                            if next_wakeup > buf['deadline']:\n                                next_wakeup = buf['deadline']\n                        else:\n                            buf['state'] = self.SendBufferState.SENDING_EOM_STATUS"))
+
+M("tp22_abort_leaks_session", ["C10"], "FD: session number not returned after peer abort (D23 reverted)",
+  ("j1939/j1939_22.py", "                        del self._snd_buffer[bufid]\n                        self.__put_rts_cts_session(buf['session'])\n                    else:", "                        del self._snd_buffer[bufid]\n                    else:"))
+M("tp22_rcv_timeout_releases_own", ["C10", "C07"], "FD: receive time-out releases an originator session number (D1 reverted)",
+  ("j1939/j1939_22.py", "                        self.__send_tp_abort(buf['dest_address'], buf['src_address'], buf['session'], self.ConnectionAbortReason.TIMEOUT, buf['pgn'])\n                        self._rcv_buffer.pop(bufid, None)\n",
+   "                        self.__send_tp_abort(buf['dest_address'], buf['src_address'], buf['session'], self.ConnectionAbortReason.TIMEOUT, buf['pgn'])\n                        self._rcv_buffer.pop(bufid, None)\n                        self._J1939_22__put_rts_cts_session(buf['session'] & 7)\n"))
+M("tp22_eoma_timeout_leaks_session", ["C10"], "FD: session not returned on EOMA time-out",
+  ("j1939/j1939_22.py", "                        # TODO: should we inform the application about the eom ack timeout?\n                        del self._snd_buffer[bufid]\n                        self.__put_rts_cts_session(buf['session'])",
+   "                        # TODO: should we inform the application about the eom ack timeout?\n                        del self._snd_buffer[bufid]"))
+M("tp21_abort_ignored", ["C10"], "J1939-21: peer abort ignored and CTS time-out keeps the buffer",
+  ("j1939/j1939_21.py", "                        self.__send_tp_abort(buf['src_address'], buf['dest_address'], self.ConnectionAbortReason.TIMEOUT, buf['pgn'])\n                        # TODO: should we notify our CAs about the cancelled transfer?\n                        del self._snd_buffer[bufid]",
+   "                        self.__send_tp_abort(buf['src_address'], buf['dest_address'], self.ConnectionAbortReason.TIMEOUT, buf['pgn'])\n                        # TODO: should we notify our CAs about the cancelled transfer?\n                        buf['deadline'] = time.time() + 30"))
+M("tp22_refused_send_emits", ["C10", "C02"], "FD: BAM announced before the capacity check",
+  ("j1939/j1939_22.py", "                session_num = self.__get_bam_session()\n                if session_num == None:\n                    #print('bam session not available')\n                    return False",
+   "                session_num = self.__get_bam_session()\n                if session_num == None:\n                    self._J1939_22__send_tp_bam(priority, src_address, 0, pgn.value, data_length, 1)\n                    return False"))
+M("tp22_capacity_7", ["C10", "C02"], "FD: only 7 RTS/CTS sessions",
+  ("j1939/j1939_22.py", "        self.__rts_cts_session_list = [True] * 8", "        self.__rts_cts_session_list = [True] * 7"))
